@@ -231,6 +231,43 @@ def body_steps(case):
     return labels
 
 
+def _long_lived_cases(tier):
+    seed = int(os.environ.get("VERIF_SEED", "1") or "1")
+    from ..strategies import harvest_sizes
+
+    # more distinct geometries than any table / ring / cache size the kernel's source mentions (up to 1200), then revisits
+    consts = [c for c in harvest_sizes(["simulation/eas_optical/cphotang.py"], lo=64) if c <= 1200]
+    m = int(min(2.2 * max(consts + [256]) + 50, 1500))
+    for det, dtype in ([(525.0, "float32"), (33.0, "float32")] if tier == "quick" else [(525.0, "float32"), (33.0, "float32"), (2000.0, "float64"), (400.0, "float32")]):
+        yield {"det": det, "dtype": dtype, "m": m, "seed": seed}
+
+
+def body_long_lived(case):
+    """ONE kernel object evaluates m distinct events (more than any cache of it could hold), then the first 48 again and
+    a sample in between: every revisit returns, bit for bit, what the first visit returned; a sample of the visits
+    conforms to the independent model. Finds bounded caches whose eviction leaves stale entries."""
+    det, dtype, m = case["det"], case["dtype"], case["m"]
+    rng = np.random.default_rng(case["seed"] * 977 + int(det))  # enumeration parameters only; part of the deterministic case
+    beta = rng.uniform(ONE_DEG, B42, m)
+    alt = rng.uniform(0.0, 19.0, m)
+    E = 10.0 ** rng.uniform(-1.0, 2.0, m)
+    k = kernel(det, dtype)
+    first = []
+    with cut(f"{m} evaluations on one kernel object"):
+        for i in range(m):
+            first.append(run_prod(k, float(beta[i]), float(alt[i]), float(E[i])))
+    revisit = list(range(48)) + [int(x) for x in rng.integers(48, m, 48)]
+    for i in revisit:
+        with cut("revisited event"):
+            again = run_prod(k, float(beta[i]), float(alt[i]), float(E[i]))
+        require(again == first[i], f"event {i} (beta={math.degrees(beta[i])!r} deg alt={alt[i]!r} km E={E[i]!r}) evaluated again on the same kernel object after {m} distinct events returns {again}, the first time {first[i]} (detector {det} km, {dtype})")
+    for i in [int(x) for x in rng.integers(0, m, 24)]:
+        dr, ar = ref.shower(float(beta[i]), float(alt[i]), float(E[i]), det_alt=det, round32=(dtype == "float32"))
+        if dtype == "float32":
+            compare32(first[i][0], first[i][1], dr, ar, f"event {i} of {m} on one kernel object")
+    return {f"m={m}", "revisited"}
+
+
 # events outside the stated domain (altitude above 20 km incl. above the 65 km ceiling, negative; angles beyond 42 deg,
 # negative; energies 0, negative; non-finite values) - [beta, altitude, energy]
 outside_ev = st.one_of(
@@ -389,6 +426,15 @@ SUBCHECKS = [
         lambda labels: True,
         {"quick": 150, "thorough": 5000},
         doc="C++ zsteps (rebuilt from the tree) == own Python step loop to 1e-12; monotone; start and end conditions",
+    ),
+    SubCheck(
+        "long_lived_kernel",
+        None,
+        body_long_lived,
+        lambda labels: "revisited" in labels,
+        {"quick": 1},
+        doc="one kernel object: m distinct events (m = 2.2 x the largest integer constant <= 1200 in the kernel's source, at least 613), then 96 of them again: revisit == first visit bit for bit; sample vs the independent model",
+        exhaustive=_long_lived_cases,
     ),
     SubCheck(
         "step_function_sanitizers",
